@@ -452,6 +452,15 @@ func trapStream(seed uint64, n int) {
 	r := rng.New(seed + 1010)
 	dir := tmpDir()
 	defer os.RemoveAll(dir)
+	// always: one run with thousands of trap calls, through each of the two trap implementations
+	for _, path := range []string{"A", "B"} {
+		c := genTrapCase(r)
+		c.kind, c.base, c.path, c.t = 0, "sparse", path, 0x3C80
+		c.init = map[uint16]uint8{0x3C80: 0x5C}
+		c.code = []uint8{0xA9, r.Byte(), 0xA0, 24, 0xA2, 0x00, 0x8D, 0x80, 0x3C, 0xCA, 0xD0, 0xFA, 0x88, 0xD0, 0xF5, 0x00}
+		count("trap.loop." + path)
+		emit(c.request() + " => " + c.run(dir))
+	}
 	for i := 0; i < n; i++ {
 		if i%4 == 3 {
 			c := genPortCase(r)
